@@ -1,12 +1,32 @@
 #!/bin/bash
-# usage: scripts/mutant.sh <patch.diff> <prop> [budget_s]  -- applies a patch to /repo, runs the quick check, reverts.
-P=$(realpath "$1"); PROP=$2; B=${3:-30}
-cd /repo || exit 2
-if ! git apply --check "$P" 2>/dev/null; then echo "patch does not apply"; exit 3; fi
-git apply "$P"
-VERIF_EVIDENCE_DIR=/tmp/walsim-mutant-evidence VERIF_BUDGET_S=$B /verif/scripts/check.sh "$PROP" quick | grep -E "VIOLATION|OK property|CHECK-TROUBLE|KNOWN|^  C" | head -8
+# usage: scripts/mutant.sh <patch.diff> <prop> [budget_s] [tier]
+# Runs a property's check against a deliberately changed raft-wal WITHOUT touching /repo: the patch is applied to a
+# scratch git worktree of /repo's HEAD, a scratch copy of sim/ is pointed at that worktree (go.mod replace), built,
+# and run with the same master/worker code as scripts/check.sh. Evidence goes to a scratch directory, never to
+# /verif/evidence. (Equivalent to `git -C /repo apply <patch>; scripts/check.sh ...; git -C /repo checkout -- .`,
+# which scripts/mutant_inplace.sh still does, but safe to run while other checks use /repo.)
+P=$(realpath "$1"); PROP=$2; B=${3:-30}; TIER=${4:-quick}
+ROOT=$(cd "$(dirname "$0")/.." && pwd)
+export GOFLAGS=-mod=mod GOPROXY=off GOSUMDB=off GOTOOLCHAIN=local
+ID=mut-$$
+WT=/tmp/wt/$ID
+SIM=/tmp/$ID-sim
+cleanup() { cd /; git -C /repo worktree remove --force $WT 2>/dev/null; rm -rf $SIM /tmp/$ID-evidence; git -C /repo worktree prune; }
+trap cleanup EXIT
+mkdir -p /tmp/wt
+git -C /repo worktree add -q --detach $WT HEAD || exit 2
+if ! git -C $WT apply "$P" 2>/dev/null; then echo "patch does not apply"; exit 3; fi
+mkdir -p $SIM && cp -r $ROOT/sim/. $SIM/ && cp /repo/go.sum $SIM/go.sum
+sed -i "s#=> /repo\$#=> $WT#" $SIM/go.mod
+grep -q "=> $WT" $SIM/go.mod || { echo "could not repoint go.mod"; exit 2; }
+mkdir -p $SIM/bin
+if ! (cd $SIM && go build -tags verif -o $SIM/bin/walsim ./cmd/walsim) > $SIM/build.log 2>&1; then echo "BUILD FAILED"; tail -20 $SIM/build.log; exit 2; fi
+RACEARG=""
+if [ "$PROP" = C06 ]; then
+  (cd $SIM && go build -race -tags "verif edgefree" -gcflags='verif/sim/...=-race=false' -o $SIM/bin/walsim-race ./cmd/walsim) >> $SIM/build.log 2>&1 || { echo "RACE BUILD FAILED"; tail -20 $SIM/build.log; exit 2; }
+  RACEARG="-racebin $SIM/bin/walsim-race"
+fi
+VERIF_EVIDENCE_DIR=/tmp/$ID-evidence VERIF_BUDGET_S=$B $SIM/bin/walsim check -prop "$PROP" -tier "$TIER" -root "$ROOT" $RACEARG | grep -E "VIOLATION|OK property|CHECK-TROUBLE|KNOWN|^  C" | cut -c1-400 | head -8
 RC=${PIPESTATUS[0]}
-git -C /repo checkout -- . 
 echo "exit=$RC"
-# leave bin/walsim built from the unmodified tree
-/verif/scripts/setup.sh >/dev/null 2>&1
+exit 0
